@@ -5,13 +5,26 @@ import LdkModel.Model.ChainView
    ops:  reset <best>                      new monitor born at <best>, empty catalog        -> ok
          tx <id> <kind>:<csv|-> ...        catalog entry (events the tx makes the monitor queue) -> ok
          block <h> <ids…> | conf <h> <ids…> | best <h> | disc <h> | unconf <id>
-            -> best=<b> aw=<t.kind.height.threshold,…|-> mat=<t.class,…|->   (both sorted) -/
+            -> best=<b> aw=<t.kind.height.threshold,…|-> mat=<t.class,…|->   (both sorted)
+   claims layer (late-preimage scenarios):
+         out <oid> <parent tx> <preimage|-> <holder 0|1>   tracked output                    -> ok
+         spend <tx> <oid…>                                 outputs the transaction spends    -> ok
+         lout <oid> <parent tx>                            output whose claim is time-locked -> ok
+         initclaim <oid> <creation> | initlocked <oid>     bookkeeping present before the first op -> ok
+         pre <p>                                           provide_payment_preimage          -> as block/conf/…
+         cv   -> claims=<oid.creation,…|-> haw=<tx.height,…|-> pre=<p,…|-> lk=<oid,…|->   (sorted) -/
 namespace Ldk.Driver
 open Ldk Ldk.ChainView
 
 structure C11State where
   cat : List (Nat × List Ev) := []
-  st : St := init 0
+  outs : List (Nat × OutInfo) := []
+  spends : List (Nat × List Nat) := []
+  locked : List (Nat × Nat) := []
+  cs : CSt := cinit 0
+
+def C11State.st (s : C11State) : St := s.cs.st
+def C11State.K (s : C11State) : ClaimCat := { outs := s.outs, spends := fun t => (s.spends.lookup t).getD [], locked := s.locked }
 
 def c11Cat (l : List (Nat × List Ev)) : Catalog := fun t => (l.lookup t).getD []
 
@@ -36,13 +49,27 @@ def showKeys (ks : List (List Nat)) : String :=
 def showSt (s : St) : String :=
   s!"best={s.best} aw={showKeys (s.awaiting.map (fun e => [e.txid, e.ev.kind, e.height, e.threshold]))} mat={showKeys (s.matured.map (fun e => [e.txid, evClass e.ev.kind]))}"
 
+def dedup (l : List (List Nat)) : List (List Nat) := l.foldl (fun acc k => if acc.contains k then acc else acc ++ [k]) []
+
+def showC (s : CSt) : String :=
+  s!"claims={showKeys (s.claims.map (fun c => [c.out, c.creation]))} haw={showKeys (dedup (s.hAw.map (fun e => [e.txid, e.height])))} pre={showKeys (s.pre.map (fun p => [p]))} lk={showKeys (s.locked.map (fun o => [o]))}"
+
 def c11Step (s : C11State) (ws : List String) : C11State × String :=
-  let go (op : Op) : C11State × String :=
-    let st' := ChainView.step (c11Cat s.cat) s.st op
-    ({ s with st := st' }, showSt st')
+  let goC (op : COp) : C11State × String :=
+    let cs' := ChainView.cstep (c11Cat s.cat) s.K s.cs op
+    ({ s with cs := cs' }, showSt cs'.st)
+  let go (op : Op) : C11State × String := goC (.chain op)
   match ws with
-  | ["reset", b] => ({ cat := [], st := init (nat! b) }, "ok")
+  | ["reset", b] => ({ cat := [], cs := cinit (nat! b) }, "ok")
   | "tx" :: id :: evs => ({ s with cat := (nat! id, evs.map parseEv) :: s.cat }, "ok")
+  | ["out", o, par, p, hold] =>
+    ({ s with outs := s.outs ++ [(nat! o, { parent := nat! par, needs := if p == "-" then none else some (nat! p), holder := hold == "1" })] }, "ok")
+  | "spend" :: t :: os => ({ s with spends := (nat! t, os.map nat!) :: s.spends }, "ok")
+  | ["lout", o, par] => ({ s with locked := s.locked ++ [(nat! o, nat! par)] }, "ok")
+  | ["initlocked", o] => ({ s with cs := { s.cs with locked := s.cs.locked ++ [nat! o] } }, "ok")
+  | ["initclaim", o, c] => ({ s with cs := { s.cs with claims := s.cs.claims ++ [{ out := nat! o, creation := nat! c }] } }, "ok")
+  | ["pre", p] => goC (.preimage (nat! p))
+  | ["cv"] => (s, showC s.cs)
   | "block" :: h :: ids => go (.blockConnected (nat! h) (ids.map nat!))
   | "conf" :: h :: ids => go (.txsConfirmed (nat! h) (ids.map nat!))
   | ["best", h] => go (.bestBlock (nat! h))
